@@ -164,7 +164,7 @@ def check_theorems(pid):
 # ----------------------------------------------------------------------------------------------
 # bridge obligations: Gen/Extracted.v regenerated from /repo, one tiny file per obligation
 
-def build_bridge(obligations):
+def build_bridge(obligations, extra_imports=''):
     """obligations: list of (name, coq_statement, proof_script). Extracted.v must already have been
     written to build/bridge/Extracted.v by harness.extract. Returns list of (name, ok, log)."""
     BRIDGE.mkdir(parents=True, exist_ok=True)
@@ -182,7 +182,7 @@ def build_bridge(obligations):
             f.write_text(
                 'From Coq Require Import ZArith QArith List Bool String.\nImport ListNotations.\n'
                 'From Eudoxia Require Import Model.Types Model.Lifecycle.\n'
-                + BRIDGE_IMPORTS +
+                + BRIDGE_IMPORTS + extra_imports +
                 'From EudoxiaGen Require Import Extracted.\n'
                 f'Goal {stmt}.\nProof. {proof} Qed.\n')
             rc, out = sh(f'timeout 300 coqc -R {COQ} Eudoxia -R {BRIDGE} EudoxiaGen B_{name}.v',
